@@ -272,6 +272,12 @@ func c08Run(c *mc.Ctx) {
 		probeName = c08CaseName(probeName, k)
 		note(fmt.Sprintf("case=%d", k))
 	}
+	// field names the format itself or a typical HTTP library gives a meaning to: as RESPONSE header fields they are
+	// ordinary fields and must be signed and written like any other
+	if k := dev(5, "probe-name-special"); k > 0 {
+		probeName = []string{"Signature", "Date", "Variants", "Accept-Signature"}[k-1]
+		note("name=" + probeName)
+	}
 	probeVal := "v"
 	if k := dev(8, "probe-value-len"); k > 0 {
 		n := []int{0, 23, 24, 255, 256, 65535, 65536}[k-1]
